@@ -11,7 +11,9 @@ P09 == << <<"getmode">>, <<"sdord", 8448, 0>>, <<"sdord", 8449, 0>>, <<"rpdo", 7
 L10 == {<<"tick">>, <<"nmt", 1, 0>>, <<"nmt", 2, 5>>, <<"nmt", 128, 5>>, <<"nmt", 130, 5>>, <<"nmt", 129, 0>>}
        \cup {<<"sdowr", 4119, 0, <<t, 0>>>> : t \in {0, 1, 2, 3}} \cup {<<"apihb", 2>>, <<"apihb", 0>>, <<"apihb", 4>>}
        \cup {<<"hb", 10, 5>>, <<"trig">>, <<"sdord", 4119, 0>>, <<"setmode", 1>>, <<"bootup">>}
-P10 == << <<"sdord", 4119, 0>>, <<"tick">>, <<"tick">>, <<"tick">>, <<"tick">>, <<"tick">>, <<"tick">>, <<"tick">>, <<"tick">>, <<"tick">> >>
+       \* the whole value range of 1017h: the largest positive and the smallest "negative" 16-bit value, the largest value
+       \cup {<<"sdowr", 4119, 0, <<255, 127>>>>, <<"sdowr", 4119, 0, <<0, 128>>>>, <<"sdowr", 4119, 0, <<255, 255>>>>, <<"apihb", 32768>>, <<"apihb", 40000>>}
+P10 == << <<"pool">>, <<"sdord", 4119, 0>>, <<"tick">>, <<"tick">>, <<"tick">>, <<"tick">>, <<"tick">>, <<"tick">>, <<"tick">>, <<"tick">>, <<"tick">> >>
 \* ---- C11 ----
 HcW(k, node, time) == <<"sdowr", 4118, k, <<time % 256, time \div 256, node, 0>>>>
 L11 == {<<"tick">>} \cup {<<"hb", nd, st>> : nd \in {10, 11, 12}, st \in {5, 127}} \cup {<<"hb", 10, 9>>}
